@@ -29,7 +29,9 @@ CHECKS = {
             "The third-order machine is stepped from every (rate, accel, jerk, accum|clear) of "
             "a boundary lattice plus rows constructed to make the rate zero at ticks 1, 1-2 and "
             "1-3 (all clear-rule levels); move_dist_t3, rate_t3 and the zero-jerk coincidence "
-            "with move_dist_lt are checked exactly at every state, long moves by closed form.",
+            "with move_dist_lt are checked exactly at every state, long moves by closed form; the "
+            "domain is the signed 32-bit range taken literally ([-2^31, 2^31-1]) with rows whose "
+            "rate touches either end exactly at a chosen tick.",
             "Exhaustive only over the stated lattice; trusts mc/firmware.py as the recurrence.",
             "DESIGN.md §3 C02"),
     "C03": ("explicit-state walk of the LM machine (LT + step counter); one run yields the first-"
@@ -47,7 +49,8 @@ CHECKS = {
             "evaluated at every state",
             "At every state of the stepped T3 machine (two lattices, up to 300/2000 ticks) the "
             "real max_rate_t3 must lie between both end rates and the true running peak and "
-            "fall short of the peak by at most |jerk|; ~6e4 states have a strictly interior peak.",
+            "fall short of the peak by at most |jerk|; ~6e4 states have a strictly interior peak; "
+            "rows touching 2^31-1 / -2^31 and rows crossing the limit included.",
             "Exhaustive only over the stated lattice; trusts mc/firmware.py as the recurrence.",
             "DESIGN.md §3 C17"),
     "C04": ("explicit-state search over call histories of the real EBB3 object (E2) with error "
@@ -60,8 +63,10 @@ CHECKS = {
             "version-less, name not found) and every method once more; an unrelated decoy object "
             "must stay untouched: zero write attempts, failure value, no "
             "exception, and a logged first-error-wins latch are checked on every transition; on "
-            "the healthy object a port exception (SerialException or plain OSError) during a "
-            "non-exempt request must be latched, not escape.",
+            "the healthy object a port exception (SerialException or plain OSError), a device "
+            "error reply, an unexpected reply or a timeout during a non-exempt request must be "
+            "latched (and an exception must not escape); ten representative requests are explored "
+            "with two deviations in the quick tier as well.",
             "Trusts the fake port/board; connect() faults are left to C15; histories of depth "
             "<= 4 (5 thorough).",
             "DESIGN.md §3 C04"),
@@ -93,7 +98,8 @@ CHECKS = {
             "Every segment with endpoints on an 8x8 lattice against 5 rectangles (incl. zero-"
             "height, zero-width, point), the same lattice in tenths, shifted by 1e6 and scaled "
             "by 1e-3: accept/reject, endpoints on the segment and in the rectangle, orientation "
-            "and coverage of the exact inside part, no exception, <= 5 loop passes.",
+            "and coverage of the exact inside part, no exception, no unbounded loop; the integer "
+            "lattice also with segment, rectangle and points given as tuples.",
             "Tolerance 1e-9 x coordinate scale; touching-only cases may go either way.",
             "DESIGN.md §3 C08"),
     "C09": ("exhaustive enumeration (E3) of all vertex lists up to length 5/6 over a 3x3 lattice "
@@ -107,10 +113,12 @@ CHECKS = {
             "DESIGN.md §3 C09"),
     "C10": ("exhaustive enumeration (E3) of lattice Bezier node lists with a per-split transition "
             "monitor (every intermediate node list is a checked state)",
-            "All 6561 one-piece curves (and two-piece lists) over the lattice x flatness values; "
-            "each split must replace exactly one piece by its exact de Casteljau halves, original "
-            "nodes survive by identity, the final pieces tile the original dyadically and are "
-            "flat; split budget 4096.",
+            "All 6561 one-piece curves (and two-piece lists, long lists) over the lattice x six "
+            "flatness values, points as lists and tuples; where single splits are observable each "
+            "must replace exactly one piece by its exact de Casteljau halves; original nodes "
+            "survive by identity, the final pieces tile the original dyadically and are flat; the "
+            "result must commute with scaling by 2^16 and with translation by (2^31, -2^30); split "
+            "budget 600, depth 48.",
             "Lattice coordinates make every midpoint an exact dyadic float.",
             "DESIGN.md §3 C10"),
     "C11": ("exhaustive lattice enumeration (E3) of viewBox x page x preserveAspectRatio against "
@@ -119,7 +127,8 @@ CHECKS = {
             "absent, defer, spelling and separator variants, plus pages and viewBoxes whose "
             "aspect ratios differ by 1e-7..1e-3 or not at all; malformed viewBoxes and the whole "
             "sign lattice of the four sizes (8^4 tuples with at least one non-positive) must "
-            "give identity.",
+            "give identity; full product of 10 x 8 separator/case spellings (space, comma, tab, LF, "
+            "CRLF) of both attributes.",
             "Python-only numerals (nan, inf, 1_0) and unknown keywords are outside the quantifier.",
             "DESIGN.md §3 C11"),
     "C12": ("exhaustive enumeration (E3) of all strings up to length 5/6 over a numeral alphabet x "
@@ -127,7 +136,8 @@ CHECKS = {
             "Every numeral x unit is pushed through the parser, both converters, the round trip "
             "and both attribute readers (percentages of several references, 0 included) and "
             "cross-checked; every non-numeral, unsupported suffix and every string of 1..4/5 "
-            "letters drawn from the unit names' own letters must yield None without raising.",
+            "letters drawn from the unit names' own letters must yield None without raising; an "
+            "explicit percent_ref=None must equal the omitted reference.",
             "96 px/in factor table from SVG/CSS; infinite/nan literals outside the quantifier.",
             "DESIGN.md §3 C12"),
     "C13": ("explicit-state search (E2) over removal histories of the real grid index x exhaustive "
@@ -135,8 +145,10 @@ CHECKS = {
             "All 1- and 2-path sets over the 3x3 lattice (3-path sets over a sub-lattice) x bins "
             "per side x reverse; every removal order is executed, states reached by different "
             "orders are compared field by field, and in every state nearest() is queried on a "
-            "lattice of points inside, on and outside the grid; an unrelated index built first "
-            "must be unchanged afterwards.",
+            "lattice of points inside, on and outside the grid; fine two-path sets straddling a "
+            "cell wall, layouts of 40-240 paths; an unrelated index built first must be unchanged "
+            "afterwards, and a fixed conditioning history on another unrelated index (queried, "
+            "emptied, queried) precedes every index under test and every replay.",
             "Zero-extent sets excluded (precondition); distance ties accepted.",
             "DESIGN.md §3 C13"),
     "C14": ("exhaustive enumeration (E3) of box multisets x query boxes against brute force",
@@ -150,7 +162,8 @@ CHECKS = {
     "C15": ("exhaustive enumeration of version/threshold pairs (E3) plus deviation-bounded "
             "exploration of connect() handshake histories (E1/E2) with stubbed enumerator/port",
             "729x729 version pairs through both layers' min_version, 42 ordered pairs of boards "
-            "alive side by side asked a, b, a; connect() histories "
+            "alive side by side asked a, b, a; MIN_VERSION_STRING raised / lowered (5 x 11 boards x "
+            "subclass, instance, class attribute); connect() histories "
             "(connect+requests, connect-connect, connect-disconnect-connect) under every "
             "environment vector with <= 2 (thorough 3) deviations over open failure, 9 banner "
             "kinds per probe, late/silent/error replies and raising I/O incl. close(): True+no-error only "
@@ -162,8 +175,10 @@ CHECKS = {
             "EBB3Board reference model",
             "All int32 byte-pattern values x all slots (RAM inspected directly), overlapping "
             "double writes, all 20 motor states (installed directly and reached through the "
-            "library, compared) x all (r1,r2) in -1..7 with query read-back and depth-2/3 "
-            "chains, and 20x20 nickname histories (incl. names made of the reply header's characters).",
+            "library, compared) x all (r1,r2) in -1..7 with query read-back, depth-2 chains and all "
+            "depth-3 chains over 16 requests, 20x20 nickname histories (incl. names made of the "
+            "reply header's characters), depth-3/4 RAM write histories against a model RAM, and "
+            "two objects on two boards used in turn (all histories of 3/4 steps over 2x8 operations).",
             "Trusts EBB3Board's EM/QE/SL/QL/ST/QT semantics (EBB command reference).",
             "DESIGN.md §3 C16"),
     "C07": ("deviation-bounded exhaustive exploration of fake-port answers (E1) over request "
@@ -172,7 +187,9 @@ CHECKS = {
             "ebb_serial.query/command against a scripted port for every vector of environment "
             "answers with at most 2 deviations (empty reads up to and past the retry limit, "
             "silence, error lines, exceptions at write or at any early read); one-write, "
-            "no-raise, returns-text and reply-attribution are checked on every execution.",
+            "no-raise, returns-text and reply-attribution are checked on every execution; sessions "
+            "of 40/61/150 requests with one deviation anywhere, OK-prefixed nicknames, and 36 "
+            "sessions alternating between two different boards on two ports.",
             "Trusts the LegacyBoard reply model (OK / data+OK / no-OK set from the EBB command "
             "reference) and that pyserial faults surface as the injected exception classes.",
             "DESIGN.md §3 C07"),
@@ -188,8 +205,10 @@ CHECKS = {
             "All ordered lists of 0..4 (thorough 5) ports over 14 descriptor kinds (blanks in names, "
             "description-only names, SER=/SNR= styles, foreign devices); first-board "
             "discovery, listings, reported names and every lookup derived from the list (names, "
-            "serial tags, port names in three casings) in both layers, a failing enumerator, and "
-            "all ordered pairs of short lists discovered in turn by one EBB3 object.",
+            "serial tags, port names in three casings) in both layers, a failing enumerator, "
+            "all ordered pairs of short lists discovered in turn by one EBB3 object, 46-port "
+            "enumerations, and every letter/digit/mark as first, last and only character of a name "
+            "held in the description, the SER= tag or the SNR= tag.",
             "Descriptor strings modelled on pyserial 3 output.",
             "DESIGN.md §3 C19"),
     "C20": ("exhaustive enumeration (E3) of token sequences (lxml round trip) and of every "
